@@ -3,7 +3,7 @@
     (a call outside the closure is refused) is decided by the correspondence harness: the model
     here fixes which calls are outside. *)
 From Coq Require Import List Arith Bool.
-From Memento Require Import Version.Rules Version.RulesProofs Gen.SourceFacts Gen.FactsOK.
+From Memento Require Import Version.Rules Version.RulesProofs Gen.SourceFacts Gen.FactsC14.
 Import ListNotations.
 
 (** the collected rule set is exactly the set of rules reachable from the function, for every
